@@ -1,22 +1,472 @@
-//! Typed allocation entry points (stub: filled in later).
+//! Typed allocation entry points of the arena world (`alloc*`, `alloc_slice_*`, `alloc_iter*`, `alloc_fmt*`,
+//! `alloc_try_with*`, `allocate_sized/slice`, prepared slices), executed for a few plain-data element types.
+//! The result is turned into a raw block (`into_raw`) that the interpreter tracks like any other block.
 
+use std::alloc::Layout;
+use std::mem::MaybeUninit;
+
+use bump_scope::alloc::Allocator;
 use bump_scope::settings::BumpAllocatorSettings;
-use bump_scope::{BaseAllocator, Bump, BumpScope};
+use bump_scope::traits::{BumpAllocatorCoreScope, BumpAllocatorTyped, BumpAllocatorTypedScope, MutBumpAllocatorTypedScope};
+use bump_scope::{BaseAllocator, Bump, BumpBox, BumpScope, WithoutDealloc};
+
+use sim::runner::inject_panic;
 
 use crate::api::*;
 
-pub fn scope_typed<'a, A, S>(_s: &mut BumpScope<'a, A, S>, _c: usize, _req: &TypedReq) -> TypedRes
-where
-    A: BaseAllocator<S::GuaranteedAllocated>,
-    S: BumpAllocatorSettings,
-{
-    TypedRes::Unsupported
+pub trait Pod: Copy + Default + 'static {
+    fn make(seed: u8, i: usize) -> Self;
+    fn bytes(&self, out: &mut Vec<u8>);
 }
 
-pub fn root_typed<A, S>(_b: &mut Bump<A, S>, _c: usize, _req: &TypedReq) -> TypedRes
+fn b(seed: u8, i: usize, k: usize) -> u8 {
+    (seed as usize).wrapping_mul(37).wrapping_add(i * 11 + k * 3).wrapping_add(1) as u8
+}
+
+macro_rules! pod_int {
+    ($($t:ty),*) => {$(
+        impl Pod for $t {
+            fn make(seed: u8, i: usize) -> Self {
+                let mut x = [0u8; std::mem::size_of::<$t>()];
+                for k in 0..x.len() { x[k] = b(seed, i, k); }
+                <$t>::from_ne_bytes(x)
+            }
+            fn bytes(&self, out: &mut Vec<u8>) { out.extend_from_slice(&self.to_ne_bytes()); }
+        }
+    )*};
+}
+pod_int!(u8, u16, u32, u64, u128);
+
+impl Pod for [u8; 3] {
+    fn make(seed: u8, i: usize) -> Self {
+        [b(seed, i, 0), b(seed, i, 1), b(seed, i, 2)]
+    }
+    fn bytes(&self, out: &mut Vec<u8>) {
+        out.extend_from_slice(self);
+    }
+}
+
+impl Pod for [u32; 3] {
+    fn make(seed: u8, i: usize) -> Self {
+        [u32::make(seed, i), u32::make(seed, i + 100), u32::make(seed, i + 200)]
+    }
+    fn bytes(&self, out: &mut Vec<u8>) {
+        for x in self {
+            out.extend_from_slice(&x.to_ne_bytes());
+        }
+    }
+}
+
+impl Pod for () {
+    fn make(_: u8, _: usize) -> Self {}
+    fn bytes(&self, _: &mut Vec<u8>) {}
+}
+
+fn expect_of<T: Pod>(seed: u8, n: usize) -> Vec<u8> {
+    let mut v = Vec::new();
+    for i in 0..n {
+        T::make(seed, i).bytes(&mut v);
+    }
+    v
+}
+
+fn block_of<T>(ptr: *mut T, n: usize, expect: Vec<u8>) -> TypedRes {
+    TypedRes::Block { ptr: ptr.cast(), len: n * std::mem::size_of::<T>(), align: std::mem::align_of::<T>(), expect, extra: Vec::new() }
+}
+
+fn one<T: Pod>(r: Result<BumpBox<'_, T>, bump_scope::alloc::AllocError>, seed: u8) -> TypedRes {
+    match r {
+        Ok(bx) => block_of(bx.into_raw().as_ptr(), 1, expect_of::<T>(seed, 1)),
+        Err(_) => TypedRes::Failed,
+    }
+}
+
+fn many<T: Pod>(r: Result<BumpBox<'_, [T]>, bump_scope::alloc::AllocError>, seed: u8, n: usize) -> TypedRes {
+    match r {
+        Ok(bx) => {
+            let len = bx.len();
+            let raw = bx.into_raw();
+            if len != n {
+                return TypedRes::WrongLen { got: len, want: n };
+            }
+            block_of(raw.as_ptr() as *mut T, n, expect_of::<T>(seed, n))
+        }
+        Err(_) => TypedRes::Failed,
+    }
+}
+
+/// Callback fault plan of a typed operation: the j-th callback unwinds.
+struct Ticks {
+    n: u32,
+    at: u32,
+}
+
+impl Ticks {
+    fn tick(&mut self) {
+        self.n += 1;
+        if self.at != 0 && self.n == self.at {
+            inject_panic(self.n);
+        }
+    }
+}
+
+pub const N_SHARED_METHODS: u8 = 17;
+
+/// Methods available through a shared reference, via the `BumpAllocatorTypedScope` trait.
+pub fn typed_on<'a, B: BumpAllocatorTypedScope<'a> + ?Sized, T: Pod>(bump: &B, req: &TypedReq) -> TypedRes {
+    let seed = req.seed;
+    let n = req.len;
+    let t = req.try_;
+    let mut ticks = Ticks { n: 0, at: req.panic_at };
+    let src: Vec<T> = (0..n).map(|i| T::make(seed, i)).collect();
+    match req.method % N_SHARED_METHODS {
+        0 => one(if t { bump.try_alloc(T::make(seed, 0)) } else { Ok(bump.alloc(T::make(seed, 0))) }, seed),
+        1 => {
+            let f = || {
+                ticks.tick();
+                T::make(seed, 0)
+            };
+            one(if t { bump.try_alloc_with(f) } else { Ok(bump.alloc_with(f)) }, seed)
+        }
+        2 => {
+            let r = if t { bump.try_alloc_default::<T>() } else { Ok(bump.alloc_default::<T>()) };
+            match r {
+                Ok(bx) => {
+                    let mut e = Vec::new();
+                    T::default().bytes(&mut e);
+                    block_of(bx.into_raw().as_ptr(), 1, e)
+                }
+                Err(_) => TypedRes::Failed,
+            }
+        }
+        3 => {
+            let r = if t { bump.try_alloc_uninit::<T>() } else { Ok(bump.alloc_uninit::<T>()) };
+            one(r.map(|u| u.init(T::make(seed, 0))), seed)
+        }
+        4 => many(if t { bump.try_alloc_slice_copy(&src) } else { Ok(bump.alloc_slice_copy(&src)) }, seed, n),
+        5 => many(if t { bump.try_alloc_slice_clone(&src) } else { Ok(bump.alloc_slice_clone(&src)) }, seed, n),
+        6 => {
+            let v = T::make(seed, 0);
+            let r = if t { bump.try_alloc_slice_fill(n, v) } else { Ok(bump.alloc_slice_fill(n, v)) };
+            match r {
+                Ok(bx) => {
+                    let mut e = Vec::new();
+                    for _ in 0..n {
+                        v.bytes(&mut e);
+                    }
+                    let len = bx.len();
+                    let raw = bx.into_raw();
+                    if len != n {
+                        return TypedRes::WrongLen { got: len, want: n };
+                    }
+                    block_of(raw.as_ptr() as *mut T, n, e)
+                }
+                Err(_) => TypedRes::Failed,
+            }
+        }
+        7 => {
+            let mut i = 0;
+            let f = || {
+                ticks.tick();
+                i += 1;
+                T::make(seed, i - 1)
+            };
+            many(if t { bump.try_alloc_slice_fill_with(n, f) } else { Ok(bump.alloc_slice_fill_with(n, f)) }, seed, n)
+        }
+        8 => many(if t { bump.try_alloc_slice_move(src) } else { Ok(bump.alloc_slice_move(src)) }, seed, n),
+        9 => {
+            let r = if t { bump.try_alloc_uninit_slice::<T>(n) } else { Ok(bump.alloc_uninit_slice::<T>(n)) };
+            many(r.map(|u| u.init_copy(&src)), seed, n)
+        }
+        10 => {
+            let r = if t { bump.try_alloc_uninit_slice_for::<T>(&src) } else { Ok(bump.alloc_uninit_slice_for::<T>(&src)) };
+            let mut i = 0;
+            many(
+                r.map(|u: BumpBox<'_, [MaybeUninit<T>]>| {
+                    u.init_fill_with(|| {
+                        i += 1;
+                        T::make(seed, i - 1)
+                    })
+                }),
+                seed,
+                n,
+            )
+        }
+        11 => {
+            let it = src.clone().into_iter().map(|x| {
+                ticks.tick();
+                x
+            });
+            many(if t { bump.try_alloc_iter(it) } else { Ok(bump.alloc_iter(it)) }, seed, n)
+        }
+        12 => many(if t { bump.try_alloc_iter_exact(src.clone()) } else { Ok(bump.alloc_iter_exact(src.clone())) }, seed, n),
+        13 => {
+            // BumpAllocatorTyped: allocate_sized / allocate_slice / allocate_slice_for / allocate_layout
+            let r: Result<*mut T, ()> = match seed % 4 {
+                0 => {
+                    if n != 1 {
+                        (if t { bump.try_allocate_slice::<T>(n).map_err(drop) } else { Ok(bump.allocate_slice::<T>(n)) }).map(|p| p.as_ptr())
+                    } else {
+                        (if t { bump.try_allocate_sized::<T>().map_err(drop) } else { Ok(bump.allocate_sized::<T>()) }).map(|p| p.as_ptr())
+                    }
+                }
+                1 => (if t { bump.try_allocate_slice::<T>(n).map_err(drop) } else { Ok(bump.allocate_slice::<T>(n)) }).map(|p| p.as_ptr()),
+                2 => (if t { bump.try_allocate_slice_for::<T>(&src).map_err(drop) } else { Ok(bump.allocate_slice_for::<T>(&src)) }).map(|p| p.as_ptr()),
+                _ => {
+                    let l = Layout::array::<T>(n).unwrap();
+                    (if t { bump.try_allocate_layout(l).map_err(drop) } else { Ok(bump.allocate_layout(l)) }).map(|p| p.as_ptr().cast())
+                }
+            };
+            match r {
+                Ok(p) => {
+                    if std::mem::size_of::<T>() != 0 {
+                        for (i, x) in src.iter().enumerate() {
+                            unsafe { p.add(i).write(*x) };
+                        }
+                    }
+                    block_of(p, n, expect_of::<T>(seed, n))
+                }
+                Err(()) => TypedRes::Failed,
+            }
+        }
+        14 => {
+            // prepare_slice_allocation + allocate_prepared_slice (forward / reverse), committing at most `cap`
+            let rev = seed % 2 == 1;
+            if std::mem::size_of::<T>() == 0 {
+                return TypedRes::Unsupported;
+            }
+            if rev {
+                let r = if t { bump.try_prepare_slice_allocation_rev::<T>(n).map_err(drop) } else { Ok(bump.prepare_slice_allocation_rev::<T>(n)) };
+                match r {
+                    Ok((end, cap)) => {
+                        if cap < n {
+                            return TypedRes::WrongLen { got: cap, want: n };
+                        }
+                        unsafe {
+                            let start = end.as_ptr().sub(n);
+                            for (i, x) in src.iter().enumerate() {
+                                start.add(i).write(*x);
+                            }
+                            let s = bump.allocate_prepared_slice_rev(end, n, cap);
+                            block_of(s.as_ptr() as *mut T, n, expect_of::<T>(seed, n))
+                        }
+                    }
+                    Err(()) => TypedRes::Failed,
+                }
+            } else {
+                let r = if t { bump.try_prepare_slice_allocation::<T>(n).map_err(drop) } else { Ok(bump.prepare_slice_allocation::<T>(n)) };
+                match r {
+                    Ok(sl) => {
+                        let cap = sl.len();
+                        if cap < n {
+                            return TypedRes::WrongLen { got: cap, want: n };
+                        }
+                        unsafe {
+                            let start = sl.as_ptr() as *mut T;
+                            for (i, x) in src.iter().enumerate() {
+                                start.add(i).write(*x);
+                            }
+                            let s = bump.allocate_prepared_slice(std::ptr::NonNull::new_unchecked(start), n, cap);
+                            block_of(s.as_ptr() as *mut T, n, expect_of::<T>(seed, n))
+                        }
+                    }
+                    Err(()) => TypedRes::Failed,
+                }
+            }
+        }
+        15 => {
+            // allocate a box and give it straight back with `dealloc`
+            match bump.try_alloc_slice_copy(&src) {
+                Ok(bx) => {
+                    bump.dealloc(bx);
+                    TypedRes::Nothing
+                }
+                Err(_) => TypedRes::Failed,
+            }
+        }
+        _ => {
+            // alloc_str / alloc_fmt with ASCII text derived from the seed
+            let s: String = (0..n).map(|i| (b'a' + (b(seed, i, 0) % 26)) as char).collect();
+            let r = if seed % 2 == 0 {
+                if t { bump.try_alloc_str(&s) } else { Ok(bump.alloc_str(&s)) }
+            } else if t {
+                bump.try_alloc_fmt(format_args!("{}{}", &s[..n / 2], &s[n / 2..]))
+            } else {
+                Ok(bump.alloc_fmt(format_args!("{}{}", &s[..n / 2], &s[n / 2..])))
+            };
+            match r {
+                Ok(bx) => {
+                    let len = bx.len();
+                    let raw = bx.into_raw();
+                    if len != n {
+                        return TypedRes::WrongLen { got: len, want: n };
+                    }
+                    TypedRes::Block { ptr: raw.as_ptr() as *mut u8, len: n, align: 1, expect: s.into_bytes(), extra: Vec::new() }
+                }
+                Err(_) => TypedRes::Failed,
+            }
+        }
+    }
+}
+
+/// Methods that need exclusive access (`MutBumpAllocatorTypedScope`).
+pub fn typed_mut_on<'a, B: MutBumpAllocatorTypedScope<'a>, T: Pod>(bump: &mut B, req: &TypedReq) -> TypedRes {
+    let seed = req.seed;
+    let n = req.len;
+    let t = req.try_;
+    let mut ticks = Ticks { n: 0, at: req.panic_at };
+    let src: Vec<T> = (0..n).map(|i| T::make(seed, i)).collect();
+    match req.method % 3 {
+        0 => {
+            let it = src.clone().into_iter().map(|x| {
+                ticks.tick();
+                x
+            });
+            many(if t { bump.try_alloc_iter_mut(it) } else { Ok(bump.alloc_iter_mut(it)) }, seed, n)
+        }
+        1 => {
+            let it = src.clone().into_iter().rev().map(|x| {
+                ticks.tick();
+                x
+            });
+            many(if t { bump.try_alloc_iter_mut_rev(it) } else { Ok(bump.alloc_iter_mut_rev(it)) }, seed, n)
+        }
+        _ => {
+            let s: String = (0..n).map(|i| (b'a' + (b(seed, i, 0) % 26)) as char).collect();
+            let r = if t { bump.try_alloc_fmt_mut(format_args!("{}{}", &s[..n / 2], &s[n / 2..])) } else { Ok(bump.alloc_fmt_mut(format_args!("{}{}", &s[..n / 2], &s[n / 2..]))) };
+            match r {
+                Ok(bx) => {
+                    let len = bx.len();
+                    let raw = bx.into_raw();
+                    if len != n {
+                        return TypedRes::WrongLen { got: len, want: n };
+                    }
+                    TypedRes::Block { ptr: raw.as_ptr() as *mut u8, len: n, align: 1, expect: s.into_bytes(), extra: Vec::new() }
+                }
+                Err(_) => TypedRes::Failed,
+            }
+        }
+    }
+}
+
+/// `alloc_try_with` / `alloc_try_with_mut` (inherent methods of `BumpScope`): the closure may itself allocate
+/// from the same arena (shared form only), may return `Err`, and may unwind.
+fn try_with<'a, A, S, T: Pod>(s: &mut BumpScope<'a, A, S>, req: &TypedReq) -> TypedRes
 where
     A: BaseAllocator<S::GuaranteedAllocated>,
     S: BumpAllocatorSettings,
 {
-    TypedRes::Unsupported
+    let seed = req.seed;
+    let t = req.try_;
+    let want_err = req.len % 2 == 1;
+    let inner = (req.len / 2) % 4; // 0 = closure allocates nothing; otherwise size class of the inner allocation
+    let mut ticks = Ticks { n: 0, at: req.panic_at };
+    let mutable = req.method % 2 == 1;
+    let mut extra: Vec<(*mut u8, usize, usize, u8)> = Vec::new();
+    let result: Result<Result<BumpBox<'a, T>, u32>, ()> = if mutable {
+        let f = || {
+            ticks.tick();
+            if want_err { Err(7u32) } else { Ok(T::make(seed, 0)) }
+        };
+        if t { s.try_alloc_try_with_mut(f).map_err(drop) } else { Ok(s.alloc_try_with_mut(f)) }
+    } else {
+        let shared: &BumpScope<'a, A, S> = &*s;
+        let f = || {
+            ticks.tick();
+            if inner != 0 {
+                let size = match inner {
+                    1 => 8,
+                    2 => 200,
+                    _ => shared.stats().current_chunk().map_or(64, |c| c.remaining() + 1),
+                };
+                let l = Layout::from_size_align(size, 1 << (seed % 4)).unwrap();
+                if let Ok(p) = shared.allocate(l) {
+                    let tag = seed.wrapping_add(91) | 1;
+                    unsafe { std::ptr::write_bytes(p.as_ptr() as *mut u8, tag, p.len()) };
+                    extra.push((p.as_ptr() as *mut u8, p.len(), l.align(), tag));
+                }
+            }
+            if want_err { Err(7u32) } else { Ok(T::make(seed, 0)) }
+        };
+        if t { shared.try_alloc_try_with(f).map_err(drop) } else { Ok(shared.alloc_try_with(f)) }
+    };
+    match result {
+        Err(()) => TypedRes::Failed,
+        Ok(Ok(bx)) => match block_of(bx.into_raw().as_ptr(), 1, expect_of::<T>(seed, 1)) {
+            TypedRes::Block { ptr, len, align, expect, .. } => TypedRes::Block { ptr, len, align, expect, extra },
+            other => other,
+        },
+        Ok(Err(_)) => TypedRes::ClosureErr { extra },
+    }
 }
+
+macro_rules! with_type {
+    ($ty:expr, $T:ident => $e:expr) => {
+        match $ty % 5 {
+            0 => { type $T = u8; $e }
+            1 => { type $T = u32; $e }
+            2 => { type $T = u128; $e }
+            3 => { type $T = [u8; 3]; $e }
+            _ => { type $T = (); $e }
+        }
+    };
+}
+
+pub fn scope_typed<'a, A, S>(s: &mut BumpScope<'a, A, S>, c: usize, req: &TypedReq) -> TypedRes
+where
+    A: BaseAllocator<S::GuaranteedAllocated>,
+    S: BumpAllocatorSettings,
+{
+    // method selector: 0..17 shared trait methods, 17..20 exclusive ones, 20..22 alloc_try_with(_mut)
+    let m = req.method % 22;
+    if m >= 20 {
+        let mut r = req.clone();
+        r.method = m - 20;
+        return match req.ty % 2 {
+            0 => try_with::<A, S, u64>(s, &r),
+            _ => try_with::<A, S, [u8; 3]>(s, &r),
+        };
+    }
+    if m >= 17 {
+        let mut r = req.clone();
+        r.method = m - 17;
+        return match req.ty % 2 {
+            0 => typed_mut_on::<_, u16>(s, &r),
+            _ => typed_mut_on::<_, [u32; 3]>(s, &r),
+        };
+    }
+    let mut r = req.clone();
+    r.method = m;
+    match c % 4 {
+        // the BumpScope itself, all element types
+        0 => with_type!(req.ty, T => typed_on::<BumpScope<'a, A, S>, T>(&*s, &r)),
+        1 => {
+            let b: &BumpScope<'a, A, S> = &*s;
+            typed_on::<&BumpScope<'a, A, S>, u64>(&b, &r)
+        }
+        2 => {
+            let d: &dyn BumpAllocatorCoreScope<'a> = &*s;
+            typed_on::<dyn BumpAllocatorCoreScope<'a>, u16>(d, &r)
+        }
+        _ => {
+            let w = WithoutDealloc(&*s);
+            typed_on::<_, [u8; 3]>(&w, &r)
+        }
+    }
+}
+
+pub fn root_typed<A, S>(b: &mut Bump<A, S>, _c: usize, req: &TypedReq) -> TypedRes
+where
+    A: BaseAllocator<S::GuaranteedAllocated>,
+    S: BumpAllocatorSettings,
+{
+    // through `&Bump` (BumpAllocatorTypedScope is implemented for references to a Bump)
+    let m = req.method % 17;
+    let mut r = req.clone();
+    r.method = m;
+    let rb: &Bump<A, S> = &*b;
+    typed_on::<&Bump<A, S>, [u32; 3]>(&rb, &r)
+}
+
+#[allow(unused)]
+fn _unused<T: BumpAllocatorTyped + ?Sized>() {}
